@@ -14,6 +14,10 @@ def sample_family(rng, kind, n):
         s = rng.standard_t(3, size=n)
     elif kind == "ties":
         s = np.round(rng.normal(size=n) * 3) / 3
+    elif kind == "cauchy":
+        s = rng.standard_cauchy(size=n)
+    elif kind == "outlier":
+        s = np.concatenate([rng.normal(size=n - 1), [10 ** rng.uniform(2, 5)]])
     else:
         s = rng.uniform(-1, 1, size=n)
     return s
@@ -36,11 +40,11 @@ def kde_native(vc):
     seed = vc.int("seed", lo=0, hi=10 ** 6)
     rng = np.random.default_rng(seed)
     np.random.seed(seed % (2 ** 31))
-    kind = vc.choice("family", ["normal", "skew", "bimodal", "heavy", "ties", "uniform"])
+    kind = vc.choice("family", ["normal", "skew", "bimodal", "heavy", "ties", "uniform", "cauchy", "outlier"])
     n = vc.choice("n", [3, 10, 200, 1500])
     scale = 10 ** vc.choice("log10_scale", [-6, -2, 0, 2, 6])
     loc = vc.choice("location_in_sigmas", [0.0, 5.0, 1e3, 1e6]) * scale
-    mode = vc.choice("bandwidth", ["rule", "user_small", "user_large", "user_huge", "cv"])
+    mode = vc.choice("bandwidth", ["rule", "user_small", "user_large", "user_huge", "cv", "user_tiny"])
     base = sample_family(rng, kind, n)
     if np.ptp(base) == 0:
         base[0] += 1.0
@@ -48,6 +52,8 @@ def kde_native(vc):
     kw = {}
     if mode == "user_small":
         kw["bandwidth"] = 0.05 * np.std(s)
+    elif mode == "user_tiny":         # data range of many thousands of bandwidths: a deep region look-up
+        kw["bandwidth"] = np.ptp(s) / 10 ** rng.uniform(3, 4.5)
     elif mode == "user_large":
         kw["bandwidth"] = 2.0 * np.ptp(s)
     elif mode == "user_huge":
@@ -66,7 +72,8 @@ def kde_native(vc):
         return
     h = kde.h
     lo, hi = s.min(), s.max()
-    xs = np.concatenate([np.linspace(lo - 6 * h, hi + 6 * h, 61), rng.choice(s, size=5), [lo - 40 * h, hi + 40 * h]])
+    near = rng.choice(s, size=12) + rng.uniform(-3, 3, size=12) * h      # points close to samples (matter when h << range)
+    xs = np.concatenate([np.linspace(lo - 6 * h, hi + 6 * h, 61), rng.choice(s, size=5), near, [lo - 40 * h, hi + 40 * h]])
     p = np.asarray(kde(xs))
     c = np.asarray(kde.cdf(xs))
     pe, ce = brute_kde(s, h, xs), brute_cdf(s, h, xs)
